@@ -142,6 +142,11 @@ func Unpack(dst, src []byte) ([]byte, error) {
 			dst = allocWords(dst, int(src[0]))
 			src = src[1:]
 			n := copy(dst[start:], src)
+			if n < len(dst)-start {
+				// The literal run is cut short: don't pass off the
+				// zero-filled remainder as decoded data.
+				return dst, io.ErrUnexpectedEOF
+			}
 			src = src[n:]
 		}
 	}
